@@ -520,3 +520,23 @@ def terminal_callers_rule(ctx: Ctx, rule="R-C14-REDELIVER", ops=C.TERMINAL_OPS) 
                           f"{fn.short()} applies the terminal broker operation '{op}': terminal actions may only come from the processor's ladder, the runner's cancel/limit path, the Message API, "
                           "consumer shutdown and Redis maintenance - anything else can return or dispose a message its holder is still working on", node=c, instance=f"{op} in {fn.short()}")
     ctx.floor(rule, n, 14, "terminal broker operation call sites")
+
+
+def redis_op_fields(ctx: Ctx, rule: str) -> None:
+    """enqueue / requeue write both data fields of the message's own hash from the operation's payload and params."""
+    for op, call_attr in (("enqueue", "hsetnx"), ("requeue", "hset")):
+        of = ctx.func(f"{C.REDIS_BROKER}.{op}")
+        w = {}
+        for c in ast.walk(of.node):
+            if isinstance(c, ast.Call) and isinstance(c.func, ast.Attribute) and c.func.attr in ("hsetnx", "hset"):
+                if len(c.args) >= 3 and isinstance(c.args[1], ast.Constant):
+                    w[c.args[1].value] = (unparse(c.args[0]), unparse(c.args[2]))
+                mp = C.kw(c, "mapping")
+                if isinstance(mp, ast.Dict):
+                    for k, v in zip(mp.keys, mp.values):
+                        if isinstance(k, ast.Constant):
+                            w[k.value] = (unparse(c.args[0]) if c.args else "", unparse(v))
+        ok = w == {"payload": ("mnc(key)", "payload"), "parameters": ("mnc(key)", "params.encode()")}
+        ctx.check(ok, rule, of, f"redis {op} writes payload and parameters of the message's own hash", "mnc(key): payload, params.encode()",
+                  f"redis {op} writes {w}: the {'re-queued' if op == 'requeue' else 'enqueued'} message does not carry its {'new ' if op == 'requeue' else ''}payload and parameters",
+                  instance=f"redis {op} fields")
